@@ -170,6 +170,11 @@ func (c07Codec) Encode(x interface{}) ([]byte, error) {
 	if !ok || v == nil {
 		return nil, fmt.Errorf("c07Codec: cannot encode %T", x)
 	}
+	if v.Ctr == 0 && len(v.Set) == 0 && v.Touch == 0 {
+		// like codec.String with "": the empty value is a legitimate, non-nil value that encodes to zero
+		// bytes (Decode maps zero bytes back to it). A store must keep it; it is not "no value".
+		return []byte{}, nil
+	}
 	return []byte(c07Digest(v)), nil
 }
 func (c07Codec) Decode(b []byte) (interface{}, error) {
@@ -270,7 +275,7 @@ func c07NewBackend(kind string, budget int) c07Backend {
 type c07Op struct {
 	key       int
 	failFirst int  // the first failFirst attempts return (nil, true, err): "fail with retry"
-	kind      byte // i increment, a append, z return the input, d decline, e fail without retry
+	kind      byte // i increment, a append, z return the input, c clear to the empty value, d decline, e fail without retry
 	retry     bool // retry flag returned together with a value
 }
 
@@ -346,6 +351,9 @@ func (o c07Op) apply(in interface{}, a int, id int) (out interface{}, retry bool
 	case 'a':
 		v := cur.clone()
 		v.add(id)
+		return v, o.retry, nil, "w" + r + "=" + c07Digest(v)
+	case 'c': // clears: returns the empty value (a drained queue); non-nil, encodes to zero bytes
+		v := &c07Val{}
 		return v, o.retry, nil, "w" + r + "=" + c07Digest(v)
 	case 'z': // returns its input unchanged (an empty value for an absent key)
 		v := cur.clone()
@@ -793,12 +801,13 @@ func c07RandOp(r *rng, nKeys int, allowSlow bool) c07Op {
 			o.failFirst = 99 // always fails with retry: the budget is exhausted
 		}
 	}
-	if allowSlow && r.chance(1, 12) {
+	if allowSlow && r.chance(1, 8) {
 		// a function that returns its input: a same-value write on consul/etcd, "no change detected"
 		// (an error, not retried: retry=false avoids memberlist's 1 s sleep) on memberlist, where the
 		// merge still runs in place on the stored object. Scheduled random runs only: the stress judge
 		// relies on strictly growing values.
-		o = c07Op{key: o.key, kind: 'z', retry: false}
+		// 'c' clears to the empty value, which encodes to zero bytes.
+		o = c07Op{key: o.key, kind: pick(r, []byte{'z', 'c', 'c'}), retry: false}
 	}
 	return o
 }
